@@ -152,7 +152,9 @@ def run(ctx):
             continue
         toks = buf.getvalue().split()
         line = res + "|" + " ".join(toks + (["x"] if res == "err" else []))
-        # the property's own reading, independent of the model: a named block writes at most once per render unless a member calls it explicitly
+        # the property's own reading, independent of the model: rendering runs the body of the base-most ancestor first
+        if toks and toks[0] != "e%d:0" % (len(chain) - 1):
+            ctx.violation(dict(case, first_marker=toks[0], expected="e%d:0" % (len(chain) - 1)), "rendering must start with the body of the base-most ancestor", tags=["c06.base-body-first"])
         req.append(chain_tok(chain))
         got.append((case, line))
     ctx.generators["chains"] = {"cases": len(req)}
